@@ -561,7 +561,7 @@ func C10(c *vlib.Ctx) {
 	c.Rule("generated configurations (1-7 routes in random order over overlapping paths, random match blocks and named matchers, inbound/outbound/internal via shorthand prefixes, pull or deliver) are started through the production wiring; generated requests (a request matching a chosen route, then 0-2 perturbations of path incl. dot segments / trailing and doubled slashes, method, Host with port/case/trailing dot/IPv6 literal, header and query sets, remote address v4/v6/IPv4-mapped) go to the production ingress handler. Status, Allow header and the route of the newly stored message are compared with an independent reference resolver written from the documented routing semantics. distinct_nontrivial = distinct (expected outcome, channel of the path-matching route, perturbation kinds) classes.")
 	c.Assume("request methods are generated in upper case only and header values without commas (the documentation and the implementation differ there; outside the statement)")
 	dir := c.Scratch()
-	nCfg := c.N(120, 4000)
+	nCfg := c.N(120, 16000)
 	perCfg := 140
 	started := 0
 	for ci := 0; ci < nCfg; ci++ {
